@@ -561,4 +561,135 @@ theorem sts_cbc_spec (src : Src) (snk : Snk) (hs : NoZero src.script) (hk : NoZe
       refine ⟨by simp, fun e' _ => ⟨[o], by simp, ?_⟩, by simp⟩
       exact ⟨by simpa using hadv, by simpa using hsadv⟩
 
+/-! ### per-octet plumbing for drivers that may answer 0 -/
+
+theorem snk_call_zero_script (s : Snk) (d : List Octet) (hd : d ≠ []) (h : (s.call d).1 = .ok 0) : s.script ≠ [] := by
+  intro hs
+  simp only [Snk.call, hs, List.head?_nil] at h
+  simp only [R.ok.injEq] at h
+  exact hd (List.length_eq_zero_iff.mp h)
+
+/-- the sink is asked until it takes the octet or fails: on success exactly that octet has been appended,
+    on failure nothing; with more rounds than script steps it does not run out of rounds -/
+theorem putRetry_spec : ∀ (fuel : Nat) (s : Snk) (o : Octet),
+    (∀ m, (putRetry fuel s o).1 = .ok m → m = 1 ∧ SnkAdv s (putRetry fuel s o).2 [o]) ∧
+    (∀ e, (putRetry fuel s o).1 = .err e → SnkAdv s (putRetry fuel s o).2 [] ∧ (isRetry e = false → SnkErrOk s e)) ∧
+    (s.script.length < fuel → (putRetry fuel s o).1 ≠ .diverge) := by
+  intro fuel
+  induction fuel with
+  | zero => intro s o; simp [putRetry]
+  | succ fuel ih =>
+    intro s o
+    obtain ⟨k, hk, hadv, hok, herr, hnd⟩ := snk_once_call s [o]
+    obtain ⟨hscr, _, _, _, _⟩ := snk_call_spec s [o]
+    simp only [putRetry, sink_put_octet]
+    rcases hc : s.call [o] with ⟨rc, s1⟩
+    rw [hc] at hadv hok herr hnd hscr
+    simp only at hadv hok herr hnd hscr
+    cases rc with
+    | diverge => exact absurd rfl hnd
+    | err e =>
+      obtain ⟨hk0, hE⟩ := herr e rfl
+      subst hk0
+      refine ⟨by simp, ?_, by simp⟩
+      intro e' he'
+      simp only [R.err.injEq] at he'
+      subst he'
+      exact ⟨by simpa using hadv, hE⟩
+    | ok m =>
+      have hm := hok m rfl
+      subst hm
+      cases m with
+      | zero =>
+        simp only
+        obtain ⟨i1, i2, i3⟩ := ih s1 o
+        have hne := snk_call_zero_script s [o] (by simp) (by rw [hc])
+        have hlen : s1.script.length + 1 = s.script.length := by
+          rw [hscr]; cases hs : s.script with
+          | nil => exact absurd hs hne
+          | cons a b => simp
+        have hadv0 : SnkAdv s s1 [] := by simpa using hadv
+        refine ⟨?_, ?_, fun hf => i3 (by omega)⟩
+        · intro m hm
+          obtain ⟨f1, f2⟩ := i1 m hm
+          exact ⟨f1, by simpa using SnkAdv.trans hadv0 f2⟩
+        · intro e he
+          obtain ⟨f1, f2⟩ := i2 e he
+          exact ⟨by simpa using SnkAdv.trans hadv0 f1, fun hr => hadv0.2.1.subset (f2 hr)⟩
+      | succ m =>
+        have hm0 : m = 0 := by simp at hk; omega
+        subst hm0
+        refine ⟨?_, by simp, by simp⟩
+        intro m' hm'
+        simp only [R.ok.injEq] at hm'
+        exact ⟨hm'.symm, by simpa using hadv⟩
+
+
+theorem src_call_zero_script (s : Src) (n : Nat) (hn : 0 < n) (h : (s.call n).1 = .ok 0) :
+    (s.call n).2.2.script.length < s.script.length := by
+  obtain ⟨_, _, hscr, _, _, _, _⟩ := call_spec s n
+  rw [hscr]
+  cases hs : s.script with
+  | nil =>
+    exfalso
+    simp only [Src.call, hs, List.head?_nil] at h
+    by_cases he : s.stream.isEmpty = true
+    · simp [he] at h
+    · simp only [he, Bool.false_eq_true, ↓reduceIte, R.ok.injEq] at h
+      have : s.stream ≠ [] := by simpa [List.isEmpty_iff] using he
+      have := List.length_pos_iff.mpr this
+      omega
+  | cons a b => simp
+
+/-- one octet from source to sink, whatever the drivers answer: success moves exactly one octet, or nothing
+    when the source had nothing for the moment (which uses up one step of its script); on failure at most one
+    octet taken from the source is lost; it always returns -/
+theorem sts_cbc_gen (src : Src) (snk : Snk) :
+    let r := sts_cbc src snk
+    (∀ m, r.1 = .ok m → (m = 1 ∧ ∃ o, Moved src snk r.2.1 r.2.2 [o] []) ∨
+        (m = 0 ∧ Moved src snk r.2.1 r.2.2 [] [] ∧ r.2.1.script.length < src.script.length)) ∧
+    (∀ e, r.1 = .err e → ∃ lost, lost.length ≤ 1 ∧ Moved src snk r.2.1 r.2.2 [] lost) ∧
+    r.1 ≠ .diverge := by
+  have hadv := Adv.of_call src 1
+  obtain ⟨_, _, _, _, hok, herr, hnd⟩ := call_spec src 1
+  have hz := src_call_zero_script src 1 (by omega)
+  simp only [sts_cbc, source_get_octet]
+  rcases hc : src.call 1 with ⟨rc, d0, src1⟩
+  rw [hc] at hadv herr hnd hok hz
+  simp only at hadv herr hnd hok hz ⊢
+  cases rc with
+  | diverge => exact absurd rfl hnd
+  | err e =>
+    have := (herr e rfl).1
+    subst this
+    exact ⟨by simp, fun e' _ => ⟨[], by simp, ⟨by simpa using hadv, SnkAdv.refl snk⟩⟩, by simp⟩
+  | ok k =>
+    obtain ⟨hk1, hk2⟩ := hok k rfl
+    cases d0 with
+    | nil =>
+      simp only [List.length_nil] at hk1
+      subst hk1
+      refine ⟨fun m hm => Or.inr ⟨by simpa using hm.symm, ⟨by simpa using hadv, SnkAdv.refl snk⟩, hz rfl⟩, by simp, by simp⟩
+    | cons o rest =>
+      have hrest : rest = [] := by
+        simp only [List.length_cons] at hk1
+        have : rest.length = 0 := by omega
+        exact List.length_eq_zero_iff.mp this
+      subst hrest
+      simp only
+      obtain ⟨p1, p2, p3⟩ := putRetry_spec (snk.script.length + 1) snk o
+      rcases hp : putRetry (snk.script.length + 1) snk o with ⟨rc2, snk1⟩
+      rw [hp] at p1 p2 p3
+      simp only at p1 p2 p3 ⊢
+      cases rc2 with
+      | diverge => exact absurd rfl (p3 (by omega))
+      | ok m =>
+        obtain ⟨hm1, hg⟩ := p1 m rfl
+        refine ⟨fun m' hm' => Or.inl ⟨by simp only [R.ok.injEq] at hm'; omega, o, ?_⟩, by simp, by simp⟩
+        exact ⟨by simpa using hadv, hg⟩
+      | err e =>
+        obtain ⟨hg, _⟩ := p2 e rfl
+        refine ⟨by simp, fun e' _ => ⟨[o], by simp, ?_⟩, by simp⟩
+        exact ⟨by simpa using hadv, hg⟩
+
 end Ufw.Lemmas.Endpoints
